@@ -83,8 +83,18 @@ pub fn run(ctx: &mut Ctx) {
             rng.shuffle(&mut rs[6..]);
             rs.truncate(16);
         }
-        for r in rs {
-            let cfg = Cfg { method, iters: budget, max_reg: r, threads, params };
+        // (threshold, budget): the ordinary budget N, plus "unbounded" budgets (u64::MAX is the
+        // documented idiom, the CLI maps `-t 0` to it) paired with a threshold that is known to be
+        // reached within N iterations
+        let mut jobs: Vec<(f64, u64)> = rs.into_iter().map(|r| (r, budget)).collect();
+        let j = rng.below(bounds.len());
+        if bounds[j].is_finite() {
+            for big in [u64::MAX, u64::MAX - 1, 1u64 << 63, budget + 1] {
+                jobs.push((next_up(bounds[j]), big));
+            }
+        }
+        for (r, run_budget) in jobs {
+            let cfg = Cfg { method, iters: run_budget, max_reg: r, threads, params };
             ctx.mark(idx, &cfg.describe());
             let tstar = bounds.iter().position(|b| *b < r).map(|i| i + 1).unwrap_or(budget as usize);
             let near = threads > 1 && bounds.iter().any(|b| (b - r).abs() <= 1e-9 * b.abs().max(1e-300));
@@ -129,6 +139,9 @@ pub fn run(ctx: &mut Ctx) {
                     if (tstar as u64) < budget {
                         ctx.count("runs_that_stopped_early", 1);
                     }
+                    if run_budget > budget {
+                        ctx.count("runs_with_unbounded_budget_and_reachable_threshold", 1);
+                    }
                     ctx.ok(mix(tree.structural_hash() ^ mix(crate::rng::hash_str(&cfg.describe()) ^ seed)), prep.flat.num_decision_infosets() > 0);
                     ctx.sample(3, || json!({"game": tree.brief(100), "cfg": cfg.describe(), "bounds_by_budget": bounds, "t_star": tstar}));
                 }
@@ -141,7 +154,7 @@ pub fn run(ctx: &mut Ctx) {
         }
     });
     ctx.finish(crate::report::extra(
-        "cases = (game, method, parameters, budget N, threads, threshold r): for each game/method/parameter set the harness first runs solve(m, t, 0) for t = 1..N (N in 1..12, sometimes 40) to obtain the bound sequence b_1..b_N and results S_1..S_N, then runs solve(m, N, r) for r in {0,-0,-1,NaN,+-inf} and b_t, next_up(b_t), next_down(b_t), 1.5 b_t, midpoints of neighbours, and requires the result to be S_{t*} with t* = first t with b_t < r else N: bit-identical with one thread, within 1e-9 with four threads (thresholds within 1e-9 relative of some b_t are then don't-care), and bound < r whenever t* < N. Sampled and External run under seeded sampling decisions (hook H2) so that the draw at (infoset, pass) is a pure function. distinct = hash(tree, configuration incl. threshold, sampling seed); non-trivial = game has a decision infoset.",
+        "cases = (game, method, parameters, budget N, threads, threshold r): for each game/method/parameter set the harness first runs solve(m, t, 0) for t = 1..N (N in 1..12, sometimes 40) to obtain the bound sequence b_1..b_N and results S_1..S_N, then runs solve(m, N, r) for r in {0,-0,-1,NaN,+-inf} and b_t, next_up(b_t), next_down(b_t), 1.5 b_t, midpoints of neighbours, and requires the result to be S_{t*} with t* = first t with b_t < r else N (also with budgets u64::MAX, u64::MAX-1, 2^63 and N+1 paired with a threshold reached within N iterations): bit-identical with one thread, within 1e-9 with four threads (thresholds within 1e-9 relative of some b_t are then don't-care), and bound < r whenever t* < N. Sampled and External run under seeded sampling decisions (hook H2) so that the draw at (infoset, pass) is a pure function. distinct = hash(tree, configuration incl. threshold, sampling seed); non-trivial = game has a decision infoset.",
         &["seeded sampling feeds the production samplers from a deterministic generator keyed by (seed, site, infoset, pass)"],
     ));
 }
